@@ -213,7 +213,20 @@ def check_property(prop, tier, seed, learn=False):
             status = 2
             for x in undecided:
                 lines.append("UNDECIDED property=%s %s" % (prop, x))
-    if tier == "thorough" and status == 0:
+    standin = getattr(reg, "bounded_standin", {}).get(prop)
+    if standin and status in (0, 2):
+        # part of this property is NOT under contract: a bounded run-time check of that part stands in (labelled bounded)
+        from . import replay
+        bud = standin["quick_s"] if tier == "quick" else standin["thorough_s"]
+        path, ran = replay.cross_check(prop, seed, budget=bud, tag="bounded")
+        bounded.append({"what": standin["what"], "bound": "%d s of random histories, seed %d (%s)" % (bud, seed, standin["searcher"]),
+                        "counted_as_proof": False})
+        if path:
+            viol = 1
+            lines.append("VIOLATION property=%s replay=%s" % (prop, path))
+            lines.append("  found by the bounded run-time check that stands in for the part of %s not under contract" % prop)
+            status = 1
+    if tier == "thorough" and status == 0 and not standin:
         # cross-check of the proof by a bounded run-time evaluation of the same clauses on the real code
         from . import replay
         path, ran = replay.cross_check(prop, seed)
@@ -226,7 +239,7 @@ def check_property(prop, tier, seed, learn=False):
             lines.append("  found by the run-time contract monitor; no proof obligation failed (the contracts do not cover this behaviour)")
             status = 1
     ev = {
-        "property_id": prop, "tier": tier, "seed": seed, "level": "proof",
+        "property_id": prop, "tier": tier, "seed": seed, "level": "other" if standin else "proof",
         "coverage": {
             "obligations": nobl - sum(len(v[1]) for v in known_hit.values()),
             "discharged": ndis,
@@ -245,7 +258,9 @@ def check_property(prop, tier, seed, learn=False):
             "vacuity_canaries": {"checked": len(canaries), "provable_false": len(vacuous), "infeasible_paths": len(dead_paths)},
             "samples": samples,
             "explanation": "every obligation is a z3 query generated from the current /repo source of the listed functions; "
-                           "'discharged' counts unsat answers only",
+                           "'discharged' counts unsat answers only"
+                           + ("; MIXED LEVEL: the functions listed under functions_under_contract are proved, the part listed under "
+                              "'bounded' is only checked at run time within the stated bound and is not counted as proved" if standin else ""),
         },
         "assumptions": GLOBAL_ASSUMPTIONS + sorted(assumed) + reg.assumptions.get(prop, []),
         "wall_s": round(time.time() - t0, 1),
